@@ -81,7 +81,7 @@ def exec_raster(c):
     arg = float(res[0]) if res[0] == res[1] == res[2] and lib.vid(c) % 2 else [float(r) for r in res]
     tf = lib.reused(ToImageStack(arg), c, t)
     snap = lib.snapshot(t)
-    stack = tf(t)
+    stack = lib.outlives(tf, t, c)          # (one case in two: the object rasterises other trees before this stack is read)
     saved_ok = 1
     if lib.vid(c) % 4 == 0 or c.get("save"):
         tmp = tempfile.mkdtemp(prefix="verif_img_")
